@@ -28,11 +28,12 @@ def dump (k : K) : String :=
         some s!" [{sid} f={stName w.field} idx={bits} all={b01 w.inAll} u={b01 w.inUse}]"
       else none
   let q := (k.queue.map (·.sid)).mergeSort (fun a b => toString a ≤ toString b)
+  let files := ((List.range k.n).filter (fun sid => match k.ws sid with | some w => w.filesExist | none => false)).mergeSort (fun a b => toString a ≤ toString b)
   let popped := match k.popped with
     | some r => s!"{r.sid}:{b01 r.wouldMining}"
     | none => "-"
   s!"pc={pcName k.pc} q={b01 k.quitting}" ++ String.join rows ++
-    s!" list={showList k.list} chan={k.chan.length} queue={showList q} popped={popped} deleted={showList k.deleted}"
+    s!" list={showList k.list} chan={k.chan.length} queue={showList q} popped={popped} deleted={showList k.deleted} files={showList files}"
 
 def errStr : Except Err Unit → String
   | .ok _ => "ok"
